@@ -97,7 +97,11 @@ def run_framing(spec):
         rest = await reader.read()
         return got, rest, len(raw)
 
-    got, rest, total = asyncio.run(main())
+    try:
+        got, rest, total = asyncio.run(main())
+    except Exception as e:
+        # the input is well-formed by construction: any failure to read it back is a framing defect
+        raise Violation('frame_unreadable', f"read_record failed with {type(e).__name__}: {str(e)[:200]} on records {[(r['id'], r['enc'], _describe(r['data'])) for r in spec['recs']]} cuts {spec['cuts'][:6]}", signature=['frame_unreadable', type(e).__name__])
     for r, (rid, data) in zip(spec['recs'], got):
         if rid != r['id']:
             raise Violation('frame_id', f"record id {r['id']!r} came back as {rid!r}", signature=['frame_id'])
